@@ -58,8 +58,12 @@ def fuzz(rng):
     r = rng.random()
     if r < 0.5:
         idx = sorted(set(idx))
-    if rng.random() < 0.15 and idx:
-        idx[int(rng.integers(len(idx)))] = int(rng.integers(-10, n + 10))
+    if rng.random() < 0.45 and idx:
+        # observations dated outside the simulated period (before the start / after the end), possibly several
+        for _ in range(int(rng.integers(1, 3))):
+            idx[int(rng.integers(len(idx)))] = int(rng.integers(-40, n + 40))
+    if rng.random() < 0.1 and len(idx) > 1:
+        idx[-1] = idx[0]          # two rows for one date: the later one counts
     if rng.random() < 0.5 and idx:
         idx[0] = 0
     dates = [(ts[0] + pd.Timedelta(days=i)).strftime("%Y-%m-%d") for i in idx]
